@@ -5,14 +5,33 @@ import (
 	"os"
 	"strconv"
 	"testing"
+
+	"pegsim/model"
 )
 
 func TestDbgGen(t *testing.T) {
 	seed, _ := strconv.ParseUint(os.Getenv("S"), 10, 64)
 	c := registry[os.Getenv("P")]
-	sc, err := c.Gen(seed, "quick")
-	if err != nil {
-		t.Fatal(err)
+	for i := 0; i < 12; i++ {
+		sc, err := c.Gen(seed+uint64(i), "quick")
+		if err != nil {
+			t.Fatal(err)
+		}
+		w, _ := buildWorld(sc)
+		l := model.New(w, model.Options{})
+		fmt.Fprintf(os.Stderr, "seed %d startEra %d blocks %d pegx %d first %d\n", seed+uint64(i), sc.Profile.StartEra, len(w.Blocks), sc.Profile.PegPriceX, w.Spec.First)
+		for l.Height < w.Tip() {
+			res := l.Step()
+			if res.Height%144 == 0 {
+				n, tot := 0, int64(0)
+				for _, d := range res.Deltas {
+					if d.Cause == model.CHolder {
+						n++
+						tot += d.Amt.Int64()
+					}
+				}
+				fmt.Fprintf(os.Stderr, "   snapshot %d: holders paid %d total %d (cap %d) ambiguous %q cands %d\n", res.Height, n, tot, int64(model.HolderPerBlock*144), res.Ambiguous, len(res.DustCandidates))
+			}
+		}
 	}
-	fmt.Fprintf(os.Stderr, "profile %+v\nconfig %+v\nplan %s\n", *sc.Profile, sc.Spec.Config, sc.Plan)
 }
